@@ -48,22 +48,35 @@ func (fi *FuncInfo) Full() string {
 
 // goBodies registers the goroutine bodies of fd as units of their own.
 func (p *Program) goBodies(pk *packages.Package, fd *ast.FuncDecl, full string) {
-	n := 0
+	n, nfn := 0, 0
+	goLits := map[*ast.FuncLit]bool{}
 	ast.Inspect(fd.Body, func(nd ast.Node) bool {
-		gs, ok := nd.(*ast.GoStmt)
+		if gs, ok := nd.(*ast.GoStmt); ok {
+			if lit, ok := gs.Call.Fun.(*ast.FuncLit); ok {
+				goLits[lit] = true
+			}
+		}
+		return true
+	})
+	ast.Inspect(fd.Body, func(nd ast.Node) bool {
+		lit, ok := nd.(*ast.FuncLit)
 		if !ok {
 			return true
 		}
-		lit, ok := gs.Call.Fun.(*ast.FuncLit)
-		if !ok {
-			return true
-		}
-		n++
 		sig, _ := pk.TypesInfo.TypeOf(lit).(*types.Signature)
 		if sig == nil {
 			return true
 		}
-		name := fmt.Sprintf("%s$go%d", full, n)
+		// "<func>$goN": N-th literal started by a go statement; "<func>$fnN": N-th other function literal (handlers,
+		// callbacks) - both in source order
+		var name string
+		if goLits[lit] {
+			n++
+			name = fmt.Sprintf("%s$go%d", full, n)
+		} else {
+			nfn++
+			name = fmt.Sprintf("%s$fn%d", full, nfn)
+		}
 		short := name[strings.LastIndex(name, ".")+1:]
 		obj := types.NewFunc(lit.Pos(), pk.Types, short, sig)
 		seen := map[*types.Var]bool{}
